@@ -265,6 +265,14 @@ def scenarios(ctx):
         items = [_rand_tuple(rng, 2, 2, rng.randint(2, 6), rng.randint(1, 2), rng.choice(["random", "near", "same"]), na=3)
                  for _ in range(4)]
         _batch(scs, 2, 2, items, rng, "random_multiallelic", mav=True)
+    # polyploid blocks with multi-allelic sites (alleles 0..2): small enough for the brute-force definitions
+    npm = 30 if q else 400
+    for i in range(npm):
+        pp = 3 if i % 2 else 4
+        items = [_rand_tuple(rng, pp, 2, rng.randint(2, 3) if pp == 3 else 2, 1, rng.choice(["random", "near", "near"]), na=3)
+                 for _ in range(4)]
+        _batch(scs, pp, 2, items, rng, "polyploid_multiallelic", mav=True)
+    ctx.notes["polyploid_multiallelic_worlds"] = npm
     ctx.notes["random_worlds"] = nr
     ctx.notes["random_multiallelic_worlds"] = nm
     return scs
@@ -550,6 +558,9 @@ def _single_match_class(events, p, key):
 
 def signature(sc, events, clause):
     p, nf = sc["p"], sc["nf"]
+    if clause == "PolyDecompositionInvariance" and p > 2:
+        # the same input class whether or not the block has multi-allelic sites (known finding: tie-break by haplotype order)
+        return "ploidy>2 same switch+flip total, different split after re-listing haplotypes"
     if sc.get("mav"):
         fails = [e for e in events if e.get("ev") == "RunFailed"]
         if clause == "Returns" and fails:
